@@ -18,10 +18,12 @@
 (*               sample the term's value came from (None = -99)               *)
 (* The consumer of the specification is a deterministic function of the three *)
 (* delivered streams, so it is run to quiescence on them, once per variant    *)
-(* of the error handling (`fixed`); `explained` says whether that variant     *)
-(* reproduces the recorded output exactly.  Every C19 clause is evaluated on  *)
-(* the recorded output; a deviation name is attached only by a variant that   *)
-(* explains the output and in which that deviation's cause occurred.          *)
+(* of the error handling (`fixed` = TRUE: the code as it is, the primary      *)
+(* model; FALSE: the repaired dead error path); `explained` says whether that *)
+(* variant reproduces the recorded output exactly.  Every C19 clause is       *)
+(* evaluated on the recorded output; a deviation name is attached only by a   *)
+(* variant that explains the output and in which that deviation's cause       *)
+(* occurred (the harness keeps the primary variant's names when it explains). *)
 EXTENDS FormulaFallback
 
 VARIABLES tid, l
@@ -32,7 +34,7 @@ Tr == TraceLog[tid]
 
 Say(v) == CSVWrite("%1$s", <<ToJson(v)>>, IOEnv.VERDICT_FILE)
 CheckD(ok, clause, detail, devs) ==
-    IF ok THEN TRUE ELSE Say([tid |-> Tr.id, l |-> 0, clause |-> clause, detail |-> detail, deviations |-> devs])
+    IF ok THEN TRUE ELSE Say([tid |-> Tr.id, l |-> 0, clause |-> clause, detail |-> detail, deviations |-> devs, fixed |-> fixed])
 
 Delivered == SelectSeq(Tr.fev, LAMBDA e : e.deliv)
 
